@@ -167,7 +167,10 @@ PayloadCases == {Bndl("payload", <<n, c>>, P0, <<BPayload(1, 0, c, Ramp(n))>>) :
 EidTuples == << <<EDtn(TDst), EDtn(TSrc), ENone, NoU, ENone>>,
                <<EIpn(<<23>>, <<42>>), EIpn(<<1>>, <<1>>), EIpn(<<1>>, <<1, 0>>), NoU, EIpn(<<9>>, <<9>>)>>,
                <<EDtn(TDst), ENone, ENone, <<4>>, EDtn(TPrev)>>,
-               <<ENone, EDtn(TSrc), EDtn(TSrc), NoU, EDtn(TSrc)>> >>
+               <<ENone, EDtn(TSrc), EDtn(TSrc), NoU, EDtn(TSrc)>>,
+               \* demux parts with characters a URI library would escape: //dst/in?p=1  //src/a%41#f  //rpt/(x)!  //prev/a b
+               <<EDtn(<<47, 47, 100, 115, 116, 47, 105, 110, 63, 112, 61, 49>>), EDtn(<<47, 47, 115, 114, 99, 47, 97, 37, 52, 49, 35, 102>>),
+                 EDtn(<<47, 47, 114, 112, 116, 47, 40, 120, 41, 33>>), NoU, EDtn(<<47, 47, 112, 114, 101, 118, 47, 97, 32, 98>>)>> >>
 EidCases ==
   {Bndl("eids", <<i>>, [P0 EXCEPT !.dst = EidTuples[i][1], !.src = EidTuples[i][2], !.rpt = EidTuples[i][3], !.flags = EidTuples[i][4]],
         <<BPrev(2, 0, 1, EidTuples[i][5]), Pay0>>) : i \in 1..Len(EidTuples)}
